@@ -16,7 +16,8 @@ RULE = ("polylines (paths, cycles, trees, stars, grids with exact ties, random g
         "starts and targets drawn from one connected component; targets as int / list / set / tuple incl. target == start, single-element sets and "
         "start inside the set; weights 'one', 'length', custom dict and custom Attribute (random, integer-valued with ties, with zero-weight edges); "
         "non-trivial = a returned path of >= 3 edges on a mesh where the hop-shortest and the weight-shortest distance orders differ, or a set query "
-        "with >= 2 targets; distinct = (mesh, start, targets, weight mode) hash")
+        "with >= 2 targets; distinct = (mesh, start, targets, weight mode) hash"
+        "; variants: units 1e-9..1e5, measured-then-deformed history, narrow numpy integer weights, sparse attribute weights with a default and few or no written entries, directly assembled polylines")
 REQUIRED = {"path": 1500, "set": 300, "border": 40}
 CASE_TIMEOUT = {"quick": 30.0, "thorough": 600.0}
 ASSUMPTIONS = ["targets are reachable from the start (the statement quantifies over connected pairs)", "weights are non-negative and finite",
